@@ -98,33 +98,44 @@ theorem resolvePols_dump {t : Table} (hi : Inv ar t) : ∀ (ps : List Policy), (
       simp only [List.map_cons, List.mapM_cons, ih, resolvePol_dump hi p (h p (by simp))]
       rfl
 
-theorem resolveAsg_dump {t : Table} (hi : Inv ar t) (d : Dir) (a : Assign) (h : t.slot d = some a) :
+theorem resolveAsg_closed {t : Table} (hi : Inv ar t) (a : Assign)
+    (hc : ∀ p ∈ a.pols, alLookup p.name t.pols = some p) :
     Spec.resolveAsg t.dump a.dump = some ((a.pols.map (fun p => p.stmts.map Stmt.toR)).flatten) := by
   simp only [Spec.resolveAsg, Assign.dump]
-  rw [resolvePols_dump hi a.pols (hi.slot d a h)]
+  rw [resolvePols_dump hi a.pols hc]
   rfl
 
-/-- every condition reachable from a live assignment is one the evaluation lemmas cover -/
-theorem asg_conds_ok {t : Table} (hi : Inv false t) (d : Dir) (a : Assign) (h : t.slot d = some a) :
+theorem resolveAsg_dump {t : Table} (hi : Inv ar t) (d : Dir) (a : Assign) (h : t.slot d = some a) :
+    Spec.resolveAsg t.dump a.dump = some ((a.pols.map (fun p => p.stmts.map Stmt.toR)).flatten) :=
+  resolveAsg_closed hi a (hi.slot d a h)
+
+/-- every condition reachable from an assignment whose policies are the table's is one the
+    evaluation lemmas cover -/
+theorem closed_conds_ok {t : Table} (hi : Inv false t) (a : Assign)
+    (hc : ∀ p ∈ a.pols, alLookup p.name t.pols = some p) :
     ∀ p ∈ a.pols, ∀ s ∈ p.stmts, ∀ c ∈ s.conds, c.ok = true := by
-  intro p hp s hs c hc
-  have h1 := hi.slot d a h p hp
+  intro p hp s hs c hcc
+  have h1 := hc p hp
   have h2 := (hi.pols _ (alLookup_mem h1)).2 s hs
   rw [← condOk_false]
-  exact ((hi.stmts _ (alLookup_mem h2)).2 c hc).2
+  exact ((hi.stmts _ (alLookup_mem h2)).2 c hcc).2
+
+theorem asg_conds_ok {t : Table} (hi : Inv false t) (d : Dir) (a : Assign) (h : t.slot d = some a) :
+    ∀ p ∈ a.pols, ∀ s ∈ p.stmts, ∀ c ∈ s.conds, c.ok = true :=
+  closed_conds_ok hi a (hi.slot d a h)
 
 /-! ## one probe -/
 
 theorem ctxOf_eq (d : Dir) (r : Route) : ctxOf d r = Spec.ctxOf d r := by
   cases d <;> rfl
 
-theorem checkProbe_ok (env : RegexEnv) {t : Table} (hi : Inv false t) (d : Dir) (a : Assign) (h : t.slot d = some a)
-    (r : Route) :
+theorem checkProbe_closed (env : RegexEnv) {t : Table} (hi : Inv false t) (d : Dir) (a : Assign)
+    (hcl : ∀ p ∈ a.pols, alLookup p.name t.pols = some p) (r : Route) :
     Spec.checkProbe env d a.dflt ((a.pols.map (fun p => p.stmts.map Stmt.toR)).flatten) r (probe env d a r) = none := by
   simp only [Spec.checkProbe]
   by_cases hp : Spec.pathOk r.attrs = true
   · simp only [hp, Bool.not_true, Bool.false_eq_true, if_false]
-    have hap := applyPols_eq env (ctxOf d r) a.dflt a.pols ⟨r.attrs, r.nh⟩ (asg_conds_ok hi d a h) hp
+    have hap := applyPols_eq env (ctxOf d r) a.dflt a.pols ⟨r.attrs, r.nh⟩ (closed_conds_ok hi a hcl) hp
     have hc : Spec.compareRes d (Spec.refChain env {} (Spec.ctxOf d r) a.dflt
         ((a.pols.map (fun p => p.stmts.map Stmt.toR)).flatten) ⟨r.attrs, r.nh⟩) (probe env d a r) = none := by
       simp only [probe, Assign.apply, hap, ← ctxOf_eq]
@@ -139,6 +150,11 @@ theorem checkProbe_ok (env : RegexEnv) {t : Table} (hi : Inv false t) (d : Dir) 
     simp only [hc]
   · have : Spec.pathOk r.attrs = false := by simpa using hp
     simp [this]
+
+theorem checkProbe_ok (env : RegexEnv) {t : Table} (hi : Inv false t) (d : Dir) (a : Assign) (h : t.slot d = some a)
+    (r : Route) :
+    Spec.checkProbe env d a.dflt ((a.pols.map (fun p => p.stmts.map Stmt.toR)).flatten) r (probe env d a r) = none :=
+  checkProbe_closed env hi d a (hi.slot d a h) r
 
 theorem firstSome_none {α} (f : Nat → α → Option String) : ∀ (i : Nat) (l : List α),
     (∀ a ∈ l, ∀ j, f j a = none) → Spec.firstSome f i l = none
@@ -458,8 +474,11 @@ theorem mem_setRefs {s : Stmt} {k : SetKind × String} (h : k ∈ Spec.setRefs s
       subst hk
       exact ⟨o, snap, hc⟩
 
-theorem refsStable_ok (env : RegexEnv) {t : Table} (hi : Inv ar t) (op : Op) (hi' : Inv ar (t.step env op).1) :
-    Spec.refsStable t.dump (t.step env op).1.dump = true := by
+theorem refsStable_of {t t' : Table} (hi : Inv ar t) (hi' : Inv ar t')
+    (H1 : ∀ k n, setInUse t k n = true → alLookup (k, n) t'.sets = alLookup (k, n) t.sets)
+    (H2 : ∀ m, stmtUsed t.pols m → stmtUsed t'.pols m → alLookup m t'.stmts = alLookup m t.stmts)
+    (H3 : ∀ m, polUsed t m → alLookup m t'.pols = alLookup m t.pols) :
+    Spec.refsStable t.dump t'.dump = true := by
   simp only [Spec.refsStable, Bool.and_eq_true]
   refine ⟨⟨?_, ?_⟩, ?_⟩
   · -- statements and the sets they refer to
@@ -478,7 +497,7 @@ theorem refsStable_ok (env : RegexEnv) {t : Table} (hi : Inv ar t) (op : Op) (hi
             simp only [setInUse, List.any_eq_true]
             exact ⟨(s.name, s0), alLookup_mem hl, _, hcond, by simp [Cond.refersTo]⟩
           obtain ⟨sn, hsn⟩ := setInUse_lookup hi hu
-          have h1 := step_sets_lookup env hi op k.1 k.2 hu
+          have h1 := H1 k.1 k.2 hu
           simp [hc, lookupSet_dump, h1, hsn]
         · have : (Spec.setRefs s0.dump).contains k = false := by simpa using hc
           rw [this]; rfl
@@ -499,17 +518,17 @@ theorem refsStable_ok (env : RegexEnv) {t : Table} (hi : Inv ar t) (op : Op) (hi
           obtain ⟨s1, hs1, hs1n⟩ := hmem
           obtain ⟨s2, hs2, hs2n⟩ := hn
           have hu : stmtUsed t.pols n := ⟨_, alLookup_mem hl, s1, hs1, hs1n⟩
-          have hu' : stmtUsed (t.step env op).1.pols n := ⟨e, he, s2, hs2, hs2n⟩
+          have hu' : stmtUsed t'.pols n := ⟨e, he, s2, hs2, hs2n⟩
           obtain ⟨sx, hsx⟩ := stmtUsed_lookup hi hu
-          have h1 := step_stmts_lookup env hi op n hu hu'
+          have h1 := H2 n hu hu'
           simp [hc, lookupStmt_dump hi, lookupStmt_dump hi', h1, hsx]
         · have : p0.dump.stmts.contains n = false := by simpa using hc
           rw [this]; rfl
   · -- assignments and the policies they name
-    have key : ∀ (d : Dir) (a0 a1 : Assign), t.slot d = some a0 → (t.step env op).1.slot d = some a1 →
+    have key : ∀ (d : Dir) (a0 a1 : Assign), t.slot d = some a0 → t'.slot d = some a1 →
         (a1.dump.pols.all fun n => !a0.dump.pols.contains n ||
-          (Spec.lookupPol t.dump n == Spec.lookupPol (t.step env op).1.dump n &&
-            (Spec.lookupPol (t.step env op).1.dump n).isSome)) = true := by
+          (Spec.lookupPol t.dump n == Spec.lookupPol t'.dump n &&
+            (Spec.lookupPol t'.dump n).isSome)) = true := by
       intro d a0 a1 h0 _
       simp only [List.all_eq_true]
       intro n _
@@ -522,7 +541,7 @@ theorem refsStable_ok (env : RegexEnv) {t : Table} (hi : Inv ar t) (op : Op) (hi
           · exact Or.inl ⟨a0, h0, p1, hp1, hp1n⟩
           · exact Or.inr ⟨a0, h0, p1, hp1, hp1n⟩
         obtain ⟨px, hpx⟩ := polUsed_lookup hi hu
-        have h1 := step_pols_lookup env hi op n hu
+        have h1 := H3 n hu
         simp [hc, lookupPol_dump hi, lookupPol_dump hi', h1, hpx]
       · have : a0.dump.pols.contains n = false := by simpa using hc
         rw [this]; rfl
@@ -533,15 +552,23 @@ theorem refsStable_ok (env : RegexEnv) {t : Table} (hi : Inv ar t) (op : Op) (hi
     · cases h0 : t.imp with
       | none => rfl
       | some a0 =>
-          cases h1 : (t.step env op).1.imp with
+          cases h1 : t'.imp with
           | none => rfl
           | some a1 => exact key .imp a0 a1 h0 h1
     · cases h0 : t.exp with
       | none => rfl
       | some a0 =>
-          cases h1 : (t.step env op).1.exp with
+          cases h1 : t'.exp with
           | none => rfl
           | some a1 => exact key .exp a0 a1 h0 h1
+
+theorem refsStable_ok (env : RegexEnv) {t : Table} (hi : Inv ar t) (op : Op) (hi' : Inv ar (t.step env op).1) :
+    Spec.refsStable t.dump (t.step env op).1.dump = true :=
+  refsStable_of hi hi' (fun k n h => step_sets_lookup env hi op k n h) (fun m h h' => step_stmts_lookup env hi op m h h')
+    (fun m h => step_pols_lookup env hi op m h)
+
+theorem refsStable_refl {t : Table} (hi : Inv ar t) : Spec.refsStable t.dump t.dump = true :=
+  refsStable_of hi hi (fun _ _ _ => rfl) (fun _ _ _ => rfl) (fun _ _ => rfl)
 
 /-! ## the run -/
 
